@@ -35,6 +35,7 @@ type sut struct {
 	pats    []string // as inserted (duplicates, maybe one "")
 	dpats   []string // distinct non-empty, sorted
 	isPat   map[string]bool
+	dup     map[string]bool // non-empty patterns inserted more than once
 	hasFFFD bool
 	anyMB   bool
 	emptyIn bool
@@ -56,10 +57,15 @@ func (s *sut) setPats(pats []string) {
 		}
 	}
 	s.hasFFFD = hasRune(pats, utf8.RuneError)
+	s.dup = map[string]bool{}
+	seen := make(map[string]bool, len(pats))
 	for _, p := range pats {
 		if p == "" {
 			s.emptyIn = true
+		} else if seen[p] {
+			s.dup[p] = true
 		}
+		seen[p] = true
 	}
 }
 
@@ -250,6 +256,10 @@ func (s *sut) checkText(text string, kind int) bool {
 		c.Add("texts_overlap_construction", 1)
 	case textNear:
 		c.Add("texts_near_valid", 1)
+	case textSparse:
+		c.Add("texts_sparse", 1)
+	case textChain:
+		c.Add("texts_chain", 1)
 	default:
 		c.Add("texts_byte_strings", 1)
 	}
@@ -260,6 +270,40 @@ func (s *sut) checkText(text string, kind int) bool {
 		}
 	}
 	c.Add("occurrences_expected", int64(len(occs)))
+	// the situations the statement's clauses quantify over, decided from the input alone
+	if len(text) == 0 {
+		c.Add("texts_empty", 1)
+	}
+	if len(s.dpats) == 0 {
+		c.Add("texts_on_empty_pattern_set", 1)
+	}
+	if s.emptyIn {
+		c.Add("texts_on_sets_with_empty_pattern", 1)
+		if len(occs) == 0 {
+			// "some NON-EMPTY pattern": the inserted "" must not make Match true
+			c.Add("texts_without_occurrence_on_sets_with_empty_pattern", 1)
+		}
+	}
+	if len(occs) == 1 {
+		c.Add("texts_with_exactly_one_occurrence", 1) // Match hinges on this one occurrence
+	}
+	if len(s.dup) > 0 {
+		n := 0
+		for _, o := range occs {
+			if s.dup[o.pat] {
+				n++
+			}
+		}
+		c.Add("occurrences_of_patterns_inserted_more_than_once", int64(n))
+	}
+	for i, run := 0, 0; i < len(occs); i++ { // occs are ordered by stop
+		if i > 0 && occs[i].stop == occs[i-1].stop {
+			run++
+		} else {
+			run = 1
+		}
+		c.Max("max_outputs_at_one_end", int64(run))
+	}
 	c.Max("max_occurrences_in_a_text", int64(len(occs)))
 	var overlap, nested, sameEnd bool
 	for i := range occs {
@@ -363,6 +407,9 @@ func (s *sut) checkKey(key string, class string) bool {
 	}
 	c.Add("prefix_keys", 1)
 	c.Add("prefix_keys_"+class, 1)
+	if len(s.dpats) == 0 {
+		c.Add("prefix_keys_on_empty_pattern_set", 1)
+	}
 	if !valid {
 		c.Add("prefix_keys_not_valid_utf8", 1)
 	} else if !isASCII(key) {
@@ -370,6 +417,25 @@ func (s *sut) checkKey(key string, class string) bool {
 	}
 	if mbBelow && len(want) >= 2 {
 		c.Add("prefix_enumerations_multibyte_subtree", 1)
+	}
+	var widths [5]bool // UTF-8 widths of the runes of a valid key
+	if valid {
+		for _, r := range key {
+			widths[utf8.RuneLen(r)] = true
+		}
+		for w := 1; w <= 4; w++ {
+			if widths[w] {
+				c.Add(fmt.Sprintf("prefix_keys_with_%dbyte_rune", w), 1)
+				if len(want) > 0 {
+					c.Add(fmt.Sprintf("prefix_nonempty_expected_for_key_with_%dbyte_rune", w), 1)
+				}
+			}
+		}
+	}
+	for _, p := range want {
+		if s.dup[p] {
+			c.Add("prefix_expected_patterns_inserted_more_than_once", 1)
+		}
 	}
 
 	var got []string
@@ -444,6 +510,14 @@ func (s *sut) checkKey(key string, class string) bool {
 	c.Add("fuzzy_calls", 1)
 	if len(fz) > 0 {
 		c.Add("fuzzy_nonempty_results", 1)
+		for w := 1; w <= 4; w++ {
+			if widths[w] {
+				c.Add(fmt.Sprintf("fuzzy_nonempty_results_for_key_with_%dbyte_rune", w), 1)
+			}
+		}
+		if !valid {
+			c.Add("fuzzy_nonempty_results_for_key_not_valid_utf8", 1)
+		}
 		if len(want) == 0 {
 			c.Add("fuzzy_nonempty_for_key_that_is_no_prefix", 1)
 		}
@@ -458,6 +532,9 @@ func (s *sut) checkKey(key string, class string) bool {
 			return false
 		}
 		c.Add("fuzzy_strings_checked", 1)
+		if !isASCII(g) {
+			c.Add("fuzzy_strings_checked_multibyte", 1)
+		}
 	}
 	return true
 }
@@ -628,7 +705,7 @@ func scripted(c *ev.Case) {
 
 func main() {
 	r := ev.New("C05")
-	r.Rule("one case = one generated pattern list (1-8 patterns, or 11-40 in the wide engines; shared prefixes, suffix/infix relations, duplicates, optionally one empty pattern) inserted into a real Trie + BuildFailureLinks, then 6 texts (random, overlap constructions, arbitrary byte strings) or 6 keys; distinct = hash of (pattern list, texts/keys); non-trivial = at least one non-empty pattern and every query compared with the brute force. Added engines: mixed: two related pattern lists -> two tries worked on alternately for 8-20 operations (text / key queries in every observer order, arguments repeated on the other and on the same trie, results kept and re-read later, results overwritten by the caller and the query repeated, BuildFailureLinks again with or without Inserts, Replace/ReplaceWithMask calls in between whose results are left to C06); match/near + prefix/near: patterns re-encoded as overlong sequences or with a continuation bit flipped; fanout: 400-1200 patterns of 1-3 runes over 448 runes; huge: 100000-130000 patterns; deep: one pattern of ~2^8 / 2^15 / 2^16 / 70000-150000 bytes plus its long suffix, prefix, infix, extension and sibling")
+	r.Rule("one case = one generated pattern list (1-8 patterns, or 11-40 in the wide engines; shared prefixes, suffix/infix relations, duplicates, optionally one empty pattern) inserted into a real Trie + BuildFailureLinks, then 6 texts (random, overlap constructions, arbitrary byte strings) or 6 keys; distinct = hash of (pattern list, texts/keys); non-trivial = at least one non-empty pattern and every query compared with the brute force. Added engines: mixed: two related pattern lists -> two tries worked on alternately for 8-20 operations (text / key queries in every observer order, arguments repeated on the other and on the same trie, results kept and re-read later, results overwritten by the caller and the query repeated, BuildFailureLinks again with or without Inserts, Replace/ReplaceWithMask calls in between whose results are left to C06); match/near + prefix/near: patterns re-encoded as overlong sequences or with a continuation bit flipped; fanout: 400-1200 patterns of 1-3 runes over 448 runes; huge: 100000-130000 patterns; deep: one pattern of ~2^8 / 2^15 / 2^16 / 70000-150000 bytes plus its long suffix, prefix, infix, extension and sibling; sparse: 1-6 patterns and texts of 8 bytes - 140 KiB scrubbed of every occurrence, then 0-2 patterns planted (start / end / across the byte midpoint / anywhere), lone bytes >= 0x80 dropped in 1 text in 4; chain: a word of 10-40 runes whose suffixes are all trie paths (patterns or paths that end in a rune no text contains), texts that enter the chain at its top and need up to 39 failure links to reach an output or a transition")
 	r.Assume("oracle = byte-wise brute force (strings.Index at every offset) over the distinct non-empty inserted patterns; patterns are always valid UTF-8, texts and keys are arbitrary bytes")
 	r.Assume("Insert(\"\") is a no-op by documentation: PrefixSearch(\"\")/FuzzySearch(\"\") may list the empty pattern at most once or not at all")
 	r.Assume("for a key that is not valid UTF-8 only soundness of PrefixSearch is demanded (every entry an inserted pattern starting with the key, each once); completeness is demanded for every valid UTF-8 key")
@@ -668,6 +745,10 @@ func main() {
 	r.Cases("huge", r.N(4, 16), hv, huge)
 	r.Cases("deep", r.N(24, 400), hv, deep)
 
+	// --- added by the clause-coverage audit (audit.go) ---
+	r.Cases("sparse", r.N(1600, 60000), hv, sparse)
+	r.Cases("chain", r.N(1600, 60000), hv, chain)
+
 	r.Require("mixed_queries", 50000)
 	r.Require("first_observer_after_build_Match", 1000)
 	r.Require("first_observer_after_build_FindAll", 1000)
@@ -703,6 +784,73 @@ func main() {
 	r.Require("keys_over_65535_bytes", 4)
 	r.Require("deep_texts_with_occurrences", 3)
 	r.Require("texts_over_256KiB", 1)
+
+	// --- floors added by the clause-coverage audit: one per situation that the statement
+	// or its quantifier names and that had a counter at best ---
+	// "any set of patterns ... shared prefixes, suffixes/infixes of each other, duplicates, 1-4 byte runes"
+	r.Require("sets_with_duplicates", 20000)
+	r.Require("occurrences_of_patterns_inserted_more_than_once", 50000)
+	r.Require("prefix_expected_patterns_inserted_more_than_once", 20000)
+	r.Require("sets_with_pattern_prefix_of_pattern", 20000)
+	r.Require("sets_with_pattern_suffix_of_pattern", 20000)
+	r.Require("sets_with_pattern_infix_of_pattern", 10000)
+	r.Require("pattern_runes_1byte", 100000)
+	r.Require("pattern_runes_2byte", 100000)
+	r.Require("pattern_runes_3byte", 100000)
+	r.Require("empty_pattern_sets", 500)
+	r.Require("texts_on_empty_pattern_set", 2000)
+	r.Require("prefix_keys_on_empty_pattern_set", 2000)
+	r.Require("rebuilds", 4000)
+	r.Require("queries_between_builds", 3000)
+	// "Match(text) is true iff some NON-EMPTY pattern occurs": both directions, the empty
+	// text, Insert("") next to a text without occurrence, texts on which Match hinges on one occurrence
+	r.Require("match_true", 50000)
+	r.Require("match_false", 50000)
+	r.Require("texts_empty", 2000)
+	r.Require("sets_with_empty_pattern", 5000)
+	r.Require("texts_without_occurrence_on_sets_with_empty_pattern", 5000)
+	r.Require("texts_with_exactly_one_occurrence", 15000)
+	r.Require("texts_random", 20000)
+	r.Require("texts_overlap_construction", 20000)
+	r.Require("texts_byte_strings", 20000)
+	// ... at every text size (sparse): the only occurrences at the start / at the end / across
+	// the midpoint / behind byte 65536, or none at all
+	r.Require("sparse_small_texts_with_single_occurrence", 200)
+	r.Require("sparse_mid_texts_with_single_occurrence", 80)
+	r.Require("sparse_mid_texts_without_occurrence", 40)
+	r.Require("sparse_mid_texts_every_occurrence_across_the_midpoint", 15)
+	r.Require("sparse_long_texts_with_single_occurrence", 40)
+	r.Require("sparse_long_texts_without_occurrence", 20)
+	r.Require("sparse_long_texts_every_occurrence_across_the_midpoint", 8)
+	r.Require("sparse_long_texts_single_occurrence_at_the_very_start", 5)
+	r.Require("sparse_long_texts_single_occurrence_at_the_very_end", 4)
+	r.Require("sparse_long_invalid_utf8_texts_with_single_occurrence", 5)
+	r.Require("sparse_texts_first_occurrence_behind_byte_65536", 25)
+	// "overlapping and nested occurrences included" at depth (chain): outputs, fallbacks and
+	// link construction that need 8 or more failure links
+	r.Require("chain_texts_with_output_behind_ge_8_failure_links", 1000)
+	r.Require("chain_texts_whose_only_occurrences_are_behind_ge_8_failure_links", 150)
+	r.Require("chain_texts_with_transition_after_ge_9_fallback_steps", 700)
+	r.Require("chain_failure_links_built_by_walking_ge_8_suffix_nodes", 120)
+	// "PrefixSearch(k) ... every string returned by FuzzySearch ... for keys and patterns made of
+	// runes of any UTF-8 width": per width of the key's runes, with a non-empty answer
+	r.Require("prefix_keys_empty", 5000)
+	r.Require("prefix_empty_expected", 20000)
+	for w := 1; w <= 4; w++ {
+		r.Require(fmt.Sprintf("prefix_keys_with_%dbyte_rune", w), 10000)
+		r.Require(fmt.Sprintf("prefix_nonempty_expected_for_key_with_%dbyte_rune", w), 5000)
+		r.Require(fmt.Sprintf("fuzzy_nonempty_results_for_key_with_%dbyte_rune", w), 5000)
+	}
+	r.Require("fuzzy_nonempty_for_key_that_is_no_prefix", 10000)
+	r.Require("fuzzy_strings_checked_multibyte", 10000)
+	for _, class := range []string{"pattern_prefix", "whole_pattern", "pattern_plus_rune", "suffix_then_prefix", "glued_patterns", "byte_prefix", "garbage", "random"} {
+		r.Require("prefix_keys_"+class, 5000)
+	}
+	// "byte-exact ... never produces a match that is not a byte-for-byte occurrence": the one
+	// aliasing a decoder can introduce (invalid byte read as U+FFFD next to a real U+FFFD pattern)
+	r.Require("sets_with_real_U+FFFD", 5000)
+	r.Require("texts_invalid_with_real_U+FFFD_pattern", 4000)
+	r.Require("keys_invalid_with_real_U+FFFD_pattern", 2000)
 
 	r.Require("pattern_text_pairs", 50000)
 	r.Require("occurrences_expected", 50000)
